@@ -154,7 +154,7 @@ theorem write_canon {g : Geo} {L LL : Nat} {s : Rat} (w : WFP g L LL s) (hk : La
       unfold wellLines
       have : (canonWell s x).pos = x.pos.map (canonPos s) := rfl
       rw [this, mapM_map']
-      exact mapM_congr' x.pos (fun p hp => wellLine_canon hs x.name ((w.wells x hx).pos p hp)))
+      exact mapM_congr' x.pos (fun p hp => wellLine_canon hs (w.wells x hx).name.len ((w.wells x hx).pos p hp)))
     rw [hm]
   rw [hnodes, hcols, hconns, hlayers, hall, hsurf, hwl, hwells]
 
